@@ -731,3 +731,102 @@ Example removeall_twice_forgets :
              OUpdate true true ] empty_storages)
   = [ (["s,,a"], [], ["s,,a"]); ([], [], ["s,,b"]) ].
 Proof. vm_compute. reflexivity. Qed.
+
+(* ================================================================== the acme account *)
+
+(* the signer holds an account exactly while it holds its client *)
+Definition sg_inv (s : signer_state) : Prop := sg_client s = false -> sg_account s = empty_account.
+
+Lemma sg_inv_new : sg_inv new_signer.
+Proof. intros _. reflexivity. Qed.
+
+Lemma acme_account_inv ok cfg s : sg_inv s -> sg_inv (acme_account ok cfg s).
+Proof.
+  intros Hi. unfold acme_account. destruct (account_eqb _ _); [exact Hi|].
+  destruct (negb (configured cfg)); [apply sg_inv_new|]. destruct ok; [|apply sg_inv_new].
+  intros H. discriminate.
+Qed.
+
+Lemma account_eqb_eq a b : account_eqb a b = true <-> a = b.
+Proof.
+  unfold account_eqb. destruct a as [e1 m1 t1], b as [e2 m2 t2]. cbn [ac_endpoint ac_emails ac_terms].
+  rewrite !andb_true_iff, !String.eqb_eq, Bool.eqb_true_iff. split.
+  - intros [[-> ->] ->]. reflexivity.
+  - intros E. injection E; auto.
+Qed.
+
+(* whenever acme is configured and the load can succeed, the call ends with the account loaded *)
+Lemma account_loads_when_possible cfg s :
+  sg_inv s -> configured cfg = true -> sg_client (acme_account true cfg s) = true.
+Proof.
+  intros Hi Hc. unfold acme_account. rewrite Hc. cbn [negb].
+  destruct (account_eqb (sg_account s) _) eqn:E; [|reflexivity].
+  apply account_eqb_eq in E. destruct (sg_client s) eqn:Ec; [reflexivity|].
+  exfalso. rewrite (Hi Ec) in E. unfold configured in Hc. rewrite <- E in Hc. cbn in Hc. discriminate.
+Qed.
+
+Definition run_accounts (h : list (bool * account)) (s : signer_state) : signer_state :=
+  fold_left (fun s (e : bool * account) => acme_account (fst e) (snd e) s) h s.
+
+Lemma run_accounts_inv h : forall s, sg_inv s -> sg_inv (run_accounts h s).
+Proof.
+  unfold run_accounts. induction h as [|e t IH]; cbn [fold_left]; intros s Hi; [exact Hi|].
+  apply IH. apply acme_account_inv. exact Hi.
+Qed.
+
+(* no sticky failure: after any history of calls (failed loads, removals, other accounts) *)
+Lemma account_retry h cfg :
+  configured cfg = true -> sg_client (acme_account true cfg (run_accounts h new_signer)) = true.
+Proof.
+  intros Hc. apply account_loads_when_possible; [|exact Hc]. apply run_accounts_inv. apply sg_inv_new.
+Qed.
+
+(* a loaded account is kept while its configuration stays the same, whatever the environment does *)
+Lemma account_kept ok cfg s :
+  sg_client s = true ->
+  sg_account s = {| ac_endpoint := normal_endpoint (ac_endpoint cfg); ac_emails := ac_emails cfg; ac_terms := ac_terms cfg |} ->
+  acme_account ok cfg s = s.
+Proof.
+  intros _ E. unfold acme_account. rewrite E. rewrite (proj2 (account_eqb_eq _ _) eq_refl). reflexivity.
+Qed.
+
+(* the sticky case of the code before the fix, as a history the theorem covers: configured,
+   removed, configured again; and the one of the seeded change: first load fails, then succeeds *)
+Example account_retry_examples :
+  let a := {| ac_endpoint := "https://acme.example"; ac_emails := "admin@example.com"; ac_terms := true |} in
+  sg_client (run_accounts [(true, a); (true, empty_account); (true, a)] new_signer) = true /\
+  sg_client (run_accounts [(false, a); (true, a)] new_signer) = true /\
+  sg_client (run_accounts [(true, a); (false, a)] new_signer) = true /\
+  sg_client (run_accounts [(false, a)] new_signer) = false.
+Proof. vm_compute. auto. Qed.
+
+(* the queue follows the cluster with the real signer: for every history, each step satisfies the
+   statement of one reconciliation with "has an account" computed by the signer, and the account
+   is there as soon as it can be *)
+Definition astep_spec (e : astep * step_trace * bool) : Prop :=
+  let '(s, tr, has) := e in
+  step_spec tr /\
+  s_called (t_step tr) = true /\ s_leader (t_step tr) = as_leader s /\ s_account (t_step tr) = has /\
+  (as_leader s = true -> as_load_ok s = true -> configured (as_config s) = true -> has = true).
+
+Lemma areconcile_all_spec h : forall st sg,
+  committed st -> sg_inv sg -> Forall astep_spec (areconcile_all (st, sg) h).
+Proof.
+  induction h as [|s t IH]; intros st sg Hc Hi; cbn [areconcile_all]; [constructor|].
+  unfold areconcile.
+  set (sg' := if as_leader s then acme_account (as_load_ok s) (as_config s) sg else sg).
+  set (stp := {| s_sync := as_sync s; s_called := true; s_leader := as_leader s; s_account := sg_client sg' |}).
+  pose proof (reconcile_spec st stp Hc) as [H1 H2].
+  assert (Et : t_step (snd (reconcile st stp)) = stp).
+  { unfold reconcile. destruct (if s_called stp then _ else _) as [[? ?] ?]. reflexivity. }
+  destruct (reconcile st stp) as [st' tr]. cbn [fst snd] in *.
+  assert (Hi' : sg_inv sg').
+  { subst sg'. destruct (as_leader s); [apply acme_account_inv; exact Hi|exact Hi]. }
+  constructor; [|apply IH; assumption].
+  unfold astep_spec. rewrite Et. cbn [stp s_called s_leader s_account]. repeat split; auto.
+  intros Hl Hok Hcfg. subst sg'. rewrite Hl, Hok. apply account_loads_when_possible; assumption.
+Qed.
+
+Lemma queue_follows_cluster_account h :
+  Forall astep_spec (areconcile_all (empty_storages, new_signer) h).
+Proof. apply areconcile_all_spec; [apply committed_empty|apply sg_inv_new]. Qed.
